@@ -19,6 +19,8 @@ pub enum Target {
     Chunk(Chunk, bool),
     Item(Item, bool),
     Compound(Vec<Member>),
+    /// the same, added to a compound builder that is queried (size + scratch write) after every add_packet
+    CompoundProbed(Vec<Member>),
     Ext { pt: u8, min: usize, count: u8, ssrc: u32, words: Vec<u32>, pad: u8 },
 }
 
@@ -84,6 +86,10 @@ impl Target {
                 let cb = build::compound_builder(ms);
                 f(&DynW(&cb))
             }
+            Target::CompoundProbed(ms) => {
+                let cb = build::compound_builder_p(ms, true);
+                f(&DynW(&cb))
+            }
             Target::Ext { pt, min, count, ssrc, words, pad } => ext::with_ext_writer(*pt, *min, *count, *ssrc, words, *pad, &mut |w| f(&DynW(w))),
         }
     }
@@ -105,7 +111,7 @@ impl Target {
             Target::Fci(f, _) => format!("{}Builder", f.name()),
             Target::Chunk(..) => "SdesChunkBuilder".into(),
             Target::Item(..) => "SdesItemBuilder".into(),
-            Target::Compound(_) => "CompoundBuilder".into(),
+            Target::Compound(_) | Target::CompoundProbed(_) => "CompoundBuilder".into(),
             Target::Ext { .. } => "ExtBuilder(third-party)".into(),
         }
     }
@@ -158,7 +164,7 @@ impl Target {
                 repr::item_rules(it, &mut out);
                 out
             }
-            Target::Compound(ms) => members_broken(ms),
+            Target::Compound(ms) | Target::CompoundProbed(ms) => members_broken(ms),
             Target::Ext { count, pad, .. } => {
                 let mut out = Vec::new();
                 if *count > 31 {
@@ -187,7 +193,7 @@ impl Target {
                 wire::encode_item(&mut v, &it.canonical());
                 v
             }
-            Target::Compound(ms) => wire::encode_members(ms),
+            Target::Compound(ms) | Target::CompoundProbed(ms) => wire::encode_members(ms),
             Target::Ext { pt, count, ssrc, words, pad, .. } => wire::encode_ext(*pt, *count, *ssrc, words, *pad),
         }
     }
@@ -305,6 +311,39 @@ pub fn member_menu() -> Vec<Member> {
     ]
 }
 
+/// Compounds of many members of mixed sizes: n members for n around the sizes an implementation might pick for an
+/// offset table or a batch (8, 16, 32, 64), in two size patterns, the last one optionally padded, one variant with a
+/// third-party member that reports "no padding" as Some(0) in front of a padded last member inside a nested compound.
+pub fn many_member_space() -> TargetSpace {
+    let counts: [usize; 16] = [5, 7, 8, 9, 15, 16, 17, 18, 31, 32, 33, 34, 63, 64, 65, 100];
+    TargetSpace::new("compound-many-members", 16 * 2 * 3, false, move |idx| {
+        use Member::*;
+        let n = counts[(idx % 16) as usize];
+        let stride = if (idx / 16) % 2 == 0 { 1 } else { 3 };
+        let kind = idx / 32;
+        let pool = [
+            Plain(Pkt::Bye { ssrcs: vec![], reason: String::new(), pad: 0 }),
+            Plain(Pkt::Rr { ssrc: 0x0102_0304, blocks: vec![], pad: 0 }),
+            Plain(Pkt::App { ssrc: 7, subtype: 3, name: "name".into(), data: vec![], pad: 0 }),
+            Plain(Pkt::Bye { ssrcs: vec![1, 2, 3], reason: String::new(), pad: 0 }),
+            Wrapped(Pkt::Unknown { pt: 207, count: 2, data: vec![9, 8, 7, 6, 5, 4, 3, 2], pad: 0 }),
+        ];
+        let mut ms: Vec<Member> = (0..n).map(|i| pool[(i * stride + i / 16) % pool.len()].clone()).collect();
+        match kind {
+            1 => {
+                ms.pop();
+                ms.push(Plain(Pkt::Rr { ssrc: 5, blocks: vec![], pad: 8 }));
+            }
+            2 => {
+                // a nested compound [third-party member answering Some(0), padded BYE] in a non-last position: refused
+                ms[n / 2] = Nested(vec![Ext { pt: 242, min: 12, count: 1, ssrc: 0x0E0E_0E0E, words: vec![1], pad: 0 }, Plain(Pkt::Bye { ssrcs: vec![], reason: String::new(), pad: 4 })]);
+            }
+            _ => {}
+        }
+        Target::Compound(ms)
+    })
+}
+
 pub fn compound_space(depth: u32) -> TargetSpace {
     let menu = member_menu();
     let k = menu.len() as u64;
@@ -387,6 +426,7 @@ pub fn all_target_spaces(tier: Tier, seed: u64) -> Vec<TargetSpace> {
     v.extend(super::rules::rule_spaces(tier).into_iter().map(|s| from_cfg(s, true)));
     v.extend(part_spaces(tier, seed));
     v.push(compound_space(tier.pick(3, 4)));
+    v.push(many_member_space());
     v.push(ext_space());
     v
 }
